@@ -30,5 +30,7 @@ From Chess3 Require Export Model.MateStreams.
 From Chess3 Require Export Spec.MateJudge.
 From Chess3 Require Export Model.SuccStreams.
 From Chess3 Require Export Spec.SuccJudge.
+From Chess3 Require Export Spec.PerftSpec.
+From Chess3 Require Export Spec.C01Judge.
 
 Extraction Language OCaml.
